@@ -25,8 +25,10 @@ matching semantics *as a whole* are declined.  Decided (shape of the code and of
   R05.g  the joined list: created empty by the call, one element per part of pattern.split('/') -- the literal part
          itself, the segment of a binding glued (+=) to the element before it -- nothing else touches it; in strict mode it
          is joined whole, outside strict mode without its last element exactly when that is empty (followed by symbolic
-         evaluation per mode: ``x[:-1]`` views, pop() / del, copies under other names); the converter map is created
-         empty by the call, every binding is recorded, the duplicate test looks at every binding;
+         evaluation per mode: ``x[:-1]`` views, pop() / del, copies under other names); the list may be built in two stages
+         (the loop fills a list of fragment lists -- ``C.append([part])``, ``C[-1].append(segment)`` -- and the joined list is
+         ``[''.join(f) for f in C]``, built after the loop: the same clauses are read off the staging list); the converter
+         map is created empty by the call, every binding is recorded, the duplicate test looks at every binding;
   R05.i  the inherit_slashes option (which decides the mode a route is compiled for) is, wherever a function hands it on to another
          object's bind() / bind_all(), read from a declaration, never a literal that would silence the declaring object's own default;
   R05.h  match_path: the mapping a match returns holds, for every (name, converter) of self.converters, the converter applied
@@ -49,6 +51,7 @@ How the code is read (so that behaviour-preserving rewrites stay silent):
   * a local bound once to a plain copy of another local (``op = raw_op``, also what inlining a helper that returns
     ``(name, op, type_name)`` leaves behind) stands for what the other held *when the copy was taken*: the ':'
     normalisation and the default type must have been applied on every path to the copy;
+  * build_converter (and the class it may instantiate) is read in the module its definition lives in (route.py may import it back);
   * build_converter is read as a *model* (``_ConvModel``): which function runs for a multi / single binding and how it spells the
     converter, the optional flag and the captured text -- two closures, or an instance of a private callable class whose
     __init__ stores the flags once (the choice made in __init__ through an attribute bound to one of two methods, or at every
